@@ -611,7 +611,7 @@ func c16(g *Gen) {
 		if dcCrossed {
 			npk = 2 + g.R.Intn(2)
 		}
-		dcEmbedded = i%4 == 2
+		dcEmbedded = i%8 == 4 // (not a program whose tag layout is forced: these types carry attached tags)
 		dcSuffix = i%8 == 5
 		if dcSuffix && npk < 2 {
 			npk = 2
